@@ -6,9 +6,14 @@
 V="$(cd "$(dirname "$0")/.." && pwd)"
 J=3; SEED=1
 while getopts "j:s:" o; do case $o in j) J=$OPTARG;; s) SEED=$OPTARG;; esac; done; shift $((OPTIND-1))
-names="$*"; [ -n "$names" ] || names=$(cd $V/seeded && ls -d C*-* | sort)
+names="$*"; [ -n "$names" ] || names=$(cd $V/seeded && ls -d C*-* | sort -t- -k2,2n -k1,1)
+OUT=$V/seeded/SELFTEST.md; [ -n "$*" ] && OUT=/var/tmp/selftest_partial.md       # only a full run rewrites the recorded table
 one() {
   name="$1"; V="$2"; SEED="$3"; id="${name%%-*}"; wt=/var/tmp/st_$name
+  # two runs that regenerate the same source-derived Coq tables from DIFFERENT trees must not overlap (the registered checks
+  # always run against /repo, so this only matters here): one lock per group of properties that share generated files
+  case $id in C01|C02|C06) grp=feb;; C04|C07) grp=kernel;; *) grp=$id;; esac
+  exec 8>/var/tmp/verif_selftest_$grp.lock; flock 8
   rm -rf $wt; git -C /repo worktree prune; $V/tools/scratch_repo.sh $wt >/dev/null 2>&1 || { echo "$name | worktree failed"; return; }
   if ! git -C $wt apply $V/seeded/$name/patch.diff 2>/dev/null && ! git -C $wt apply --3way $V/seeded/$name/patch.diff 2>/dev/null; then
     echo "$name | $id | patch does not apply to /repo HEAD | -"; git -C /repo worktree remove --force $wt; return; fi
@@ -25,6 +30,6 @@ one() {
 export -f one
 printf "%s\n" $names | xargs -P $J -I{} bash -c "one {} $V $SEED" | sort > $V/seeded/.selftest.tmp
 { echo "# Self-test: every recorded independent change must be detected (seed $SEED, /repo $(git -C /repo log --format=%h -1), /verif $(git -C $V log --format=%h -1))"
-  echo; echo "| change | property | result | wall | first reason |"; echo "|---|---|---|---|---|"; sed 's/^/| /; s/$/ |/' $V/seeded/.selftest.tmp; } > $V/seeded/SELFTEST.md
+  echo; echo "| change | property | result | wall | first reason |"; echo "|---|---|---|---|---|"; sed 's/^/| /; s/$/ |/' $V/seeded/.selftest.tmp; } > $OUT
 rm -f $V/seeded/.selftest.tmp
-grep -c "NOT DETECTED" $V/seeded/SELFTEST.md | sed 's/^/not detected: /'
+grep -c "NOT DETECTED" $OUT | sed 's/^/not detected: /'
